@@ -17,6 +17,10 @@ LEGACY_START = 'abcxyzABC_:'
 LEGACY_REST = LEGACY_START + '019'
 UTF8_NAMES = ['na.me', 'sp ace', 'quo"te', 'back\\slash', 'br{ace}', 'hé', 'x\U0001f600y', 'eq=s', 'co,mma',
               'ha#sh', '1digit', 'new\nline', 'a-b']
+# shapes of a quoted sample name that starts a family WITHOUT metadata ({} = a legacy name): white space around it and
+# quote characters inside it (the pinned parser named that family by unquoting the sample's name a second time)
+IMPLICIT_SHAPES = [' {}', '{} ', '  {} ', '\t{}', '{}\t', '"{}"', ' "{}" ', '"{}', '{}"', '"{}.b"', '"', '""', '" "', ' ',
+                   '{}.b', '{} x', 'q"{}"', '\\"{}\\"', '"{}\\"']
 LABEL_VALUES = ['', 'v', 'x y', 'a"b', 'a\\b', 'a\nb', 'a\\nb', '{', '}', '{x="y"}', ',', '=', ' # ', '#', 'é', '\U0001f600',
                 '\\', '\\\\', '"', '""', ' ', 'le', '+Inf', '1', 'a,b=c', '} 1 # {', '\t', 'tail\\']
 HELP_TEXTS = ['', 'help', 'with space', 'back\\slash', 'quo"te', 'new\nline', 'a\\nb', '  lead', 'trail ', '# EOF', '"', '\\',
@@ -155,6 +159,28 @@ class Gen:
                 n = n + '_' + unit
             cand = {n + s for s in ('', '_total', '_created', '_count', '_sum', '_bucket', '_gcount', '_gsum', '_info')}
             # no name of this family may collide with, or be a name of, another family (with any suffix)
+            if cand & self.used:
+                continue
+            self.used |= cand
+            return n
+        raise RuntimeError('name space exhausted')
+
+    def implicit_name(self):
+        """name of a family that a sample line starts without any metadata: legacy, UTF-8, padded with white space,
+        or holding quote characters; neither it nor its stripped / unquoted form is a name of another family"""
+        r = self.rng
+        for _ in range(200):
+            k = r.random()
+            base = self.legacy_name() + r.choice(['', '', '', '_total', '_bucket', '_info'])
+            if k < 0.3:
+                n = base
+            elif k < 0.45:
+                n = r.choice(UTF8_NAMES) + r.choice(['', '2', '.z'])
+            else:
+                n = r.choice(IMPLICIT_SHAPES).replace('{}', base)
+            forms = {n, n.strip(), n.strip().strip('"'), n.strip()[1:-1]}
+            cand = {x + s for x in forms
+                    for s in ('', '_total', '_created', '_count', '_sum', '_bucket', '_gcount', '_gsum', '_info')}
             if cand & self.used:
                 continue
             self.used |= cand
@@ -431,8 +457,9 @@ class Gen:
                                'unknown', 'untyped-sample'])
         unit = r.choice(UNITS) if (typ not in ('info', 'stateset', 'untyped-sample') and r.random() < 0.3) else None
         if typ == 'untyped-sample':
-            # a bare sample line without metadata starts an unknown family (legacy names only)
-            f = Family(self.fresh_name(utf8_ok=False), None, None, None, meta=())
+            # a sample line without metadata starts an unknown family named like the sample (any name: a quoted one is
+            # taken as it is, fixes/C04-om-implicit-family-name.diff)
+            f = Family(self.implicit_name() if self.rich else self.fresh_name(utf8_ok=False), None, None, None, meta=())
             self.gauge_like(f)
             f.groups = f.groups[:1]
             return f
@@ -1437,6 +1464,11 @@ REGRESSION_DOCS = [
     ' a{x="y"} 1\n# EOF\n', 'a {x="y"} 1\n# EOF\n', '# TYPE a gauge\n a{x="y"} 1\n# EOF\n',    # padded sample name
     '# TYPE a gauge\na 1 1.123456789e5\n# EOF\n', '# TYPE a gauge\na 1 -0.5\n# EOF\n', '# TYPE a gauge\na 1 -1.5\n# EOF\n',
     ' {} 1\n# EOF\n',
+    # implicit unknown family: the pinned parser unquoted the sample's name again (family a holding sample ' a')
+    '{" a"} 1\n# EOF\n', '{"a "} 1\n# EOF\n', '{" a_total"} 1\n# EOF\n', '{"\\"a\\""} 1\n# EOF\n', '{"\\"a.b\\""} 1\n# EOF\n',
+    '{"a.b"} 1\n# EOF\n', '{"\\"a"} 1\n# EOF\n', '{" "} 1\n# EOF\n', '{""} 1\n# EOF\n', '{"\\""} 1\n# EOF\n',
+    '# TYPE a gauge\na 1\n{" a"} 1\n# EOF\n', '# TYPE b gauge\nb 1\n{" a",x="y"} 1 5\n{" a",x="y"} 2 6\n# EOF\n',
+    '{" a"} 1\n# TYPE a gauge\na 1\n# EOF\n',
     'inf\n# EOF\n', 'nan\n# EOF\n',
     '# TYPE a histogram\na_bucket{le="1"} 1\na_bucket{le="nan"} 1\na_bucket{le="+Inf"} 1\n# EOF\n',
     '# TYPE a counter\na_total 1 # {a="x\\"y"} 1\n# EOF\n',
